@@ -403,6 +403,9 @@ def run(ctx: Ctx):
     r_cache_use(ctx, model)
     r_cache_key(ctx)
     r_state(ctx, model)
+    # "loaded kernels ... are invisible", also after a load that failed part-way (shared with C18)
+    from .C18 import r_load_failure
+    r_load_failure(ctx, model, prop="C04", rule="R-module")
 
 
 META = {
